@@ -293,7 +293,7 @@ func (e *Exec) customShape(path string, t types.Type, a string) ([]altFn, bool) 
 			return r, ""
 		}}, true
 	}
-	return nil, false
+	return e.scenarioShape(path, t, a)
 }
 
 // float64Facts: true facts about every finite float64 that the real-number
